@@ -1,9 +1,15 @@
 import Driver.C19
+import Driver.Ring
 open Driver
 
 def main (args : List String) : IO UInt32 := do
   match args with
   | ["C19"] => run C19.handler
+  | ["C04"] => run (Ring.handler "C04")
+  | ["C05"] => run (Ring.handler "C05")
+  | ["C06"] => run (Ring.handler "C06")
+  | ["C13"] => run (Ring.handler "C13")
+  | ["C14"] => run (Ring.handler "C14")
   | _ => do
     IO.eprintln "usage: dcv-driver <property id>   (annotated op lines on stdin)"
     return 2
